@@ -43,7 +43,7 @@ from elementpath.xpath_tokens import XPathToken, ValueToken, XPathFunction
 from elementpath.serialization import get_serialization_params, serialize_to_xml, \
     serialize_to_json
 from elementpath.xpath_context import XPathContext, XPathSchemaContext
-from elementpath.regex import translate_pattern, RegexError
+from elementpath.regex import translate_pattern, escape_literal_pattern, RegexError
 
 from ._xpath30_operators import XPath30Parser
 from .xpath30_helpers import UNICODE_DIGIT_PATTERN, DECIMAL_DIGIT_PATTERN, \
@@ -968,7 +968,7 @@ def evaluate__analyze_string(self: XPathFunction, context: ta.ContextType = None
             if c in 'smix':
                 flags |= getattr(re, c.upper())
             elif c == 'q' and self.parser.version > '2':
-                pattern = re.escape(pattern)
+                pattern = escape_literal_pattern(pattern)
             else:
                 raise self.error('FORX0001', "Invalid regular expression flag %r" % c)
 
